@@ -59,6 +59,18 @@ Fixpoint extent (ovf : bool) (t : ty) (bs : list Z) {struct t} : out Z :=
          end) vs
   end.
 
+(* BTreeMap::insert on an association list kept in ascending key order (keys compare as LE integers) *)
+Fixpoint bt_insert {A} (key : list Z) (v : A) (l : list (list Z * A)) : list (list Z * A) :=
+  match l with
+  | [] => [(key, v)]
+  | (k', v') :: r =>
+      if le_decode key <? le_decode k' then (key, v) :: l
+      else if le_decode key =? le_decode k' then (key, v) :: r
+      else (k', v') :: bt_insert key v r
+  end.
+Definition bt_collect {A} (l : list (list Z * A)) : list (list Z * A) :=
+  fold_left (fun acc kv => bt_insert (fst kv) (snd kv) acc) l [].
+
 Definition omap {A B} (f : A -> B) (o : out A) : out B := do a <- o; Ok (f a).
 
 (* offset entries of an UnsizedList: (offset, key bytes) *)
@@ -80,6 +92,7 @@ Fixpoint owned (ovf : bool) (t : ty) (bs : list Z) {struct t} : out val :=
       let len := le_decode (firstn 4 (skipn 4 bs)) in
       let ents := split_entries k len (ztake (len * (4 + Z.of_nat k)) (skipn 8 bs)) in
       let data := ztake usz (zdrop (12 + len * (4 + Z.of_nat k)) bs) in
+      if (k =? 0)%nat then
       omap VUList ((fix go ents :=
          match ents with
          | [] => Ok []
@@ -90,6 +103,24 @@ Fixpoint owned (ovf : bool) (t : ty) (bs : list Z) {struct t} : out val :=
              do v <- owned ovf it sl;
              do vs <- go r;
              Ok ((key, v) :: vs)
+         end) ents)
+      else
+      (* UnsizedMap: owned_from_ptr goes through the offset iterator (unsized_list.rs 1233-1249): element i is
+         the slice [off_i, off_{i+1}) of the unsized bytes (checked); an element that does not parse ENDS the
+         iteration (`.ok()?`); the pairs are collected into a BTreeMap (ascending keys, a later duplicate wins) *)
+      omap (fun l => VUList (bt_collect l)) ((fix go ents :=
+         match ents with
+         | [] => Ok []
+         | (off, key) :: r =>
+             let en := match r with (o2, _) :: _ => o2 | [] => usz end in
+             if (en <? off) || (usz <? en) then Err EC_POINTER_OUT_OF_BOUNDS else
+             let sl := ztake (en - off) (zdrop off data) in
+             match extent ovf it sl with
+             | Ok _ => do v <- owned ovf it sl; do vs <- go r; Ok ((key, v) :: vs)
+             | Err _ => Ok []
+             | Panic => Panic
+             | Fault => Fault
+             end
          end) ents)
   | TStruct ts =>
       omap VStruct ((fix go ts bs :=
